@@ -332,7 +332,19 @@ func (w *World) payloadTable(r *Report) map[int64]string {
 	if fn == nil {
 		return nil
 	}
-	re := regexp.MustCompile(`^\(p0\.Type == (-?\d+)\)$`)
+	table := w.payloadTableOf(fn, regexp.MustCompile(`^\(p0\.Type == (-?\d+)\)$`))
+	if table == nil {
+		r.Undecided("P-2", "fromProto:payload-store", "Trx.fromProto no longer stores tx.Payload")
+		return nil
+	}
+	w.payloadTab = table
+	return table
+}
+
+// payloadTableOf: tx type -> the payload type that fn stores in Trx.Payload on its
+// successful paths, evaluated per type constant (helpers and factories resolved
+// on the path); facts hold in addition (e.g. "the wire payload is not empty").
+func (w *World) payloadTableOf(fn *ssa.Function, re *regexp.Regexp, facts ...atom) map[int64]string {
 	table := map[int64]string{}
 	stores := 0
 	for _, k := range []int64{1, 2, 3, 4, 5, 6, 7, 8, 0} {
@@ -340,13 +352,17 @@ func (w *World) payloadTable(r *Report) map[int64]string {
 		if kk == 0 {
 			kk = 9999 // any other value
 		}
-		eval := func(c ssa.Value) (bool, bool) {
+		base := func(c ssa.Value) (bool, bool) {
 			if m := re.FindStringSubmatch(w.Canon(c)); m != nil {
 				var x int64
 				fmt.Sscan(m[1], &x)
 				return x == kk, true
 			}
 			return false, false
+		}
+		eval := base
+		if len(facts) > 0 {
+			eval = w.newFactEval(base, facts...).eval
 		}
 		event := func(in ssa.Instruction) string {
 			st, ok := in.(*ssa.Store)
@@ -400,10 +416,8 @@ func (w *World) payloadTable(r *Report) map[int64]string {
 		}
 	}
 	if stores == 0 {
-		r.Undecided("P-2", "fromProto:payload-store", "Trx.fromProto no longer stores tx.Payload")
 		return nil
 	}
-	w.payloadTab = table
 	return table
 }
 
